@@ -100,16 +100,15 @@ theorem step_refines {s : State} {h : List Ev} (hg : Good s) (ha : AbsIs3 s h) (
       have : (step s (.crash false)).1 = openWith s s.files s.wal := by simp [step, stepCrash, State.wal]
       rw [this]; exact abs_openWith_same hg.inv hg.wal s.files (fun _ _ => rfl) k t
   | compactCrash i j pt n =>
-    simp only [evsOf, List.append_nil]
-    by_cases hv : validGroup s.files i j = true
-    · have hstep : (step s (.compactCrash i j pt n)).1 =
-          openWith s (compactCrashFiles s.files i j pt n) s.wal := by simp [step, hv]
-      rw [hstep]
-      exact ⟨good_deleteCrash hg _, fun k t => by
-        rw [← ha k t]
-        exact abs_openWith_same hg.inv hg.wal _ (get_compactCrashFiles _ _ _ (validGroup_le hv) _ _) k t⟩
-    · have hstep : (step s (.compactCrash i j pt n)).1 = s.touch := by simp [step, hv]
-      rw [hstep]; exact ⟨good_touch hg, ha⟩
+    simp only [evsOf, List.append_nil, step]
+    have hget : ∀ k t, Log.get (filesLog (if validGroup s.files i j then compactCrashFiles s.files i j pt n
+        else s.files)) k t = Log.get (filesLog s.files) k t := by
+      intro k t
+      by_cases hv : validGroup s.files i j = true
+      · simp only [hv, if_true]; exact get_compactCrashFiles _ _ _ (validGroup_le hv) _ _ k t
+      · simp [hv]
+    exact ⟨good_deleteCrash hg _, fun k t => by
+      rw [← ha k t]; exact abs_openWith_same hg.inv hg.wal _ hget k t⟩
   | deleteCrash ss lo hi => simp [inScope'] at hop
 
 theorem safeFrom_cons {s : State} {op : Op} {ops : List Op} (h : safeFrom s (op :: ops) = true) :
@@ -160,8 +159,8 @@ theorem checkFrom_runFrom (ops : List Op) : ∀ (s : State) (h : List Ev) (w : W
     | crash tear =>
       cases tear with
       | true => simp [inScope'] at hop
-      | false => simp only [checkFrom]; exact hrest _ _ (by simp [evsOf])
-    | compactCrash i j pt n => simp only [checkFrom]; exact hrest _ _ (by simp [evsOf])
+      | false => simp only [checkFrom, step, if_true]; exact hrest _ _ (by simp [evsOf])
+    | compactCrash i j pt n => simp only [checkFrom, step, if_true]; exact hrest _ _ (by simp [evsOf])
     | deleteCrash ss lo hi => simp [inScope'] at hop
 
 /-- **C03, partial** — for every history of writes, deletes, snapshot sub-steps, compactions of
